@@ -1,9 +1,10 @@
 (* C17 - executable model of frappy/persistent.py (PersistentMixin: __init__, loadPersistentData, loadParameters,
    saveParameters, __save_params, factory_reset), of the pieces of frappy/modulebase.py it relies on (configured
    values and writeDict registration in Module.__init__, announceUpdate callbacks, writeInitParams) and of
-   export_value / import_value of frappy/datatypes.py (as repaired by the fix: commits up to 9c57815: array and
-   tuple import check kind and length, scaled import takes integers only, blob import is strict base64; struct
-   import still admits missing optional members).  No proofs in this file.
+   export_value / import_value / validate of frappy/datatypes.py.  The code modelled is the repaired one
+   (fix: commits up to 66c61e0): persistentData is assigned after the rename, a non-object document counts as
+   unreadable, a stored entry is used only if import_value, validate and export_value all accept it.
+   No proofs in this file.
    CPython behaviour enters as data: the number of chunks json.dump writes (n), integral floats (FInt),
    scale*n and base64 as finite tables carried by the datatype, what json.load makes of foreign bytes (pj). *)
 From Coq Require Import List Arith ZArith NArith Bool.
@@ -107,8 +108,8 @@ Inductive dtype :=
 | DEnum (ms : list (str * Z))
 | DStr (minc maxc : nat) (utf8 : bool)
 | DFloat
-| DScaled (tab : list (Z * fl))            (* n |-> scale * n *)
-| DBlob (tab : list (str * str))           (* bytes |-> base64 text *)
+| DScaled (tab : list (Z * fl)) (lo hi : Z) (* n |-> scale * n; min/scale and max/scale *)
+| DBlob (minb maxb : nat) (tab : list (str * str))   (* bytes |-> base64 text *)
 | DArray (d : dtype) (minlen maxlen : nat)
 | DTuple (ds : list dtype)
 | DStruct (ms : list (str * dtype)) (opt : list str).
@@ -140,8 +141,8 @@ Fixpoint import (d : dtype) (j : val) {struct d} : option val :=
       end
   | DStr minc maxc utf8 => match j with VStr s => if str_ok minc maxc utf8 s then Some (VStr s) else None | _ => None end
   | DFloat => option_map VFlt (num_of j)
-  | DScaled tab => match num_of j with Some (FInt z) => option_map VFlt (assoc_Z z tab) | _ => None end
-  | DBlob tab => match j with VStr s => option_map VBytes (rassoc_str s tab) | _ => None end
+  | DScaled tab _ _ => match num_of j with Some (FInt z) => option_map VFlt (assoc_Z z tab) | _ => None end
+  | DBlob _ _ tab => match j with VStr s => option_map VBytes (rassoc_str s tab) | _ => None end
   | DArray d' mn mx =>
       (* check_type first: a list (no string, no object) of mn..mx elements *)
       match j with
@@ -195,8 +196,8 @@ Fixpoint export (d : dtype) (v : val) {struct d} : option val :=
   | DEnum ms => match v with VInt z => if existsb (Z.eqb z) (map snd ms) then Some (VInt z) else None | _ => None end
   | DStr _ _ _ => match v with VStr s => Some (VStr s) | _ => None end
   | DFloat => match v with VFlt f => Some (VFlt f) | _ => None end
-  | DScaled tab => match v with VFlt f => option_map VInt (rassoc_fl f tab) | _ => None end
-  | DBlob tab => match v with VBytes b => option_map VStr (lookup_str b tab) | _ => None end
+  | DScaled tab _ _ => match v with VFlt f => option_map VInt (rassoc_fl f tab) | _ => None end
+  | DBlob _ _ tab => match v with VBytes b => option_map VStr (lookup_str b tab) | _ => None end
   | DArray d' mn mx =>
       match v with
       | VSeq l => if Nat.leb mn (length l) && Nat.leb (length l) mx
@@ -238,6 +239,79 @@ Fixpoint export (d : dtype) (v : val) {struct d} : option val :=
                 end) kvs)
       | _ => None
       end
+  end.
+
+(* datatype.validate(v) on an internal value (limits, lengths, members): None = raises *)
+Fixpoint validate (d : dtype) (v : val) {struct d} : option val :=
+  match d with
+  | DInt lo hi => match v with VInt z => if Z.leb lo z && Z.leb z hi then Some v else None | _ => None end
+  | DBool => match v with VBool _ => Some v | _ => None end
+  | DEnum ms => match v with VInt z => if existsb (Z.eqb z) (map snd ms) then Some v else None | _ => None end
+  | DStr a b u => match v with VStr s => if str_ok a b u s then Some v else None | _ => None end
+  | DFloat => match v with VFlt _ => Some v | _ => None end
+  | DScaled tab lo hi =>
+      match v with
+      | VFlt f => match rassoc_fl f tab with
+                  | Some n => if Z.leb lo n && Z.leb n hi then Some v else None
+                  | None => None end
+      | _ => None
+      end
+  | DBlob mn mx _ =>
+      match v with
+      | VBytes b => if Nat.leb mn (length b) && Nat.leb (length b) mx then Some v else None
+      | _ => None
+      end
+  | DArray d' mn mx =>
+      match v with
+      | VSeq l => if Nat.leb mn (length l) && Nat.leb (length l) mx
+                  then option_map VSeq (all_some (map (validate d') l)) else None
+      | _ => None
+      end
+  | DTuple ds =>
+      match v with
+      | VSeq l =>
+          if Nat.eqb (length l) (length ds) then
+            option_map VSeq
+              ((fix go (ds : list dtype) (l : list val) : option (list val) :=
+                  match ds, l with
+                  | d1 :: ds', x :: l' =>
+                      match validate d1 x, go ds' l' with Some a, Some r => Some (a :: r) | _, _ => None end
+                  | _, _ => Some []
+                  end) ds l)
+          else None
+      | _ => None
+      end
+  | DStruct ms opt =>
+      match v with
+      | VMap kvs =>
+          if existsb (fun kv => negb (mem_str (fst kv) (map fst ms))) kvs then None
+          else if existsb (fun m => negb (mem_str (fst m) (map fst kvs)) && negb (mem_str (fst m) opt)) ms then None
+          else option_map VMap
+            ((fix go (kvs : list (str * val)) : option (list (str * val)) :=
+                match kvs with
+                | [] => Some []
+                | (k, x) :: r =>
+                    match (fix find (ms : list (str * dtype)) : option val :=
+                             match ms with
+                             | [] => None
+                             | (n, d') :: ms' => if str_eqb n k then validate d' x else find ms'
+                             end) ms, go r with
+                    | Some a, Some rr => Some ((k, a) :: rr)
+                    | _, _ => None
+                    end
+                end) kvs)
+      | _ => None
+      end
+  end.
+
+(* what a stored entry is worth for a parameter of this datatype: it must be importable, valid for the current
+   definition and storable again (loadPersistentData, inside the per-entry try) *)
+Definition usable_dt (d : dtype) (j : val) : option val :=
+  match import d j with
+  | Some x => match validate d x with
+              | Some y => match export d y with Some _ => Some y | None => None end
+              | None => None end
+  | None => None
   end.
 
 (* ------------------------------------------------------------------ python dicts keyed by parameter number *)
@@ -287,12 +361,14 @@ Definition fsop_eqb (a b : fsop) : bool :=
 
 (* control state of one __save_params file sequence: running, an OSError is propagating, the process is dead *)
 Inductive ctl := CRun | CFail | CDead.
-Record sv := { s_disk : disk; s_ctl : ctl; s_open : bool; s_err : bool }.
+(* s_done: the rename took place (the statement after it, self.persistentData = data, is reached) *)
+Record sv := { s_disk : disk; s_ctl : ctl; s_open : bool; s_err : bool; s_done : bool }.
 
-Definition set_disk s v := {| s_disk := v; s_ctl := s_ctl s; s_open := s_open s; s_err := s_err s |}.
-Definition set_ctl s v := {| s_disk := s_disk s; s_ctl := v; s_open := s_open s; s_err := s_err s |}.
-Definition set_open s v := {| s_disk := s_disk s; s_ctl := s_ctl s; s_open := v; s_err := s_err s |}.
-Definition set_err s v := {| s_disk := s_disk s; s_ctl := s_ctl s; s_open := s_open s; s_err := v |}.
+Definition set_disk s v := {| s_disk := v; s_ctl := s_ctl s; s_open := s_open s; s_err := s_err s; s_done := s_done s |}.
+Definition set_ctl s v := {| s_disk := s_disk s; s_ctl := v; s_open := s_open s; s_err := s_err s; s_done := s_done s |}.
+Definition set_open s v := {| s_disk := s_disk s; s_ctl := s_ctl s; s_open := v; s_err := s_err s; s_done := s_done s |}.
+Definition set_err s v := {| s_disk := s_disk s; s_ctl := s_ctl s; s_open := s_open s; s_err := v; s_done := s_done s |}.
+Definition set_done s v := {| s_disk := s_disk s; s_ctl := s_ctl s; s_open := s_open s; s_err := s_err s; s_done := v |}.
 
 (* is the operation reached at all: the with-block closes the file also when its body raised, the finally
    clause removes the temporary file also after an error, nothing happens after death *)
@@ -322,7 +398,7 @@ Definition effect (data : amap) (n : nat) (d : disk) (o : fsop) : disk * bool :=
 Definition apply_effect (data : amap) (n : nat) (s : sv) (o : fsop) : sv :=
   let '(d, ok) := effect data n (s_disk s) o in
   let s1 := set_disk s d in
-  let s2 := match o with FOpen => set_open s1 true | _ => s1 end in
+  let s2 := match o with FOpen => set_open s1 true | FRename => set_done s1 ok | _ => s1 end in
   if ok then s2 else set_err (set_ctl s2 CFail) true.
 
 Definition fault_at (f : fault) (o : fsop) : option fkind :=
@@ -341,7 +417,7 @@ Definition exec (f : fault) (data : amap) (n : nat) (s : sv) (o : fsop) : sv :=
 Definition save_ops (n : nat) : list fsop :=
   FOpen :: map FWrite (seq 0 n) ++ [FClose; FRename; FRemove].
 
-Definition sv0 (d : disk) : sv := {| s_disk := d; s_ctl := CRun; s_open := false; s_err := false |}.
+Definition sv0 (d : disk) : sv := {| s_disk := d; s_ctl := CRun; s_open := false; s_err := false; s_done := false |}.
 
 Definition save_file (f : fault) (data : amap) (n : nat) (d : disk) : sv :=
   fold_left (exec f data n) (save_ops n) (sv0 d).
@@ -362,7 +438,7 @@ Definition is_auto (M : mdesc) (i : nat) : bool :=
 Record mstate := {
   vals : amap;                 (* parameter values *)
   wdict : amap;                (* writeDict, in insertion order *)
-  pdata : option amap;         (* persistentData; None = not a dict (compares unequal to every snapshot) *)
+  pdata : option amap;         (* persistentData (always a dict in the repaired code; None is kept for the driver) *)
   initd : amap;                (* initData *)
 }.
 Definition set_vals m v := {| vals := v; wdict := wdict m; pdata := pdata m; initd := initd m |}.
@@ -390,14 +466,14 @@ Definition differs (data : amap) (pd : option amap) : bool :=
 
 Inductive sp_out := SPNothing | SPWrote (r : sres) | SPExportRaise.
 
-(* __save_params: persistentData is assigned BEFORE the file is written (as in the pinned code) *)
+(* __save_params: persistentData is assigned right after the rename, i.e. only when the new file is in place *)
 Definition save_params (M : mdesc) (f : fault) (n : nat) (d : disk) (m : mstate) : disk * mstate * sp_out :=
   match snapshot_of M (vals m) with
   | None => (d, m, SPExportRaise)
   | Some data =>
       if differs data (pdata m) then
         let s := save_file f data n d in
-        (s_disk s, set_pdata m (Some data), SPWrote (sres_of s))
+        (s_disk s, (if s_done s then set_pdata m (Some data) else m), SPWrote (sres_of s))
       else (d, m, SPNothing)
   end.
 
@@ -432,16 +508,16 @@ Definition write_init (M : mdesc) (f : fault) (n : nat) (d : disk) (m : mstate) 
   fold_left (wi_step M f n) (wdict m) (d, m, false).
 
 (* loadPersistentData *)
-Inductive lres := LRaise | LOk (raw : amap) (loaded : amap).
+Inductive lres := LOk (raw : amap) (loaded : amap).
 
 Definition load_entry (M : mdesc) (acc : amap) (kv : nat * val) : amap :=
   match nth_error M (fst kv) with
   | None => acc                                   (* KeyError: warning *)
   | Some p =>
       if persistent p then
-        match import (p_dt p) (snd kv) with
+        match usable_dt (p_dt p) (snd kv) with
         | Some v => aset (fst kv) v acc
-        | None => acc                             (* import raised: warning *)
+        | None => acc                             (* import / validate / export raised: warning *)
         end
       else acc
   end.
@@ -452,7 +528,7 @@ Definition load_file (M : mdesc) (d : disk) : lres :=
   | Some c =>
       match parse c with
       | PJInvalid => LOk [] []                    (* ValueError *)
-      | PJOther => LRaise                         (* AttributeError: no .items() *)
+      | PJOther => LOk [] []                      (* not a dict: ValueError raised by hand *)
       | PJObj raw => LOk raw (fold_left (load_entry M) raw [])
       end
   end.
@@ -503,7 +579,6 @@ Definition finish (d : disk) (m : mstate) (dead : bool) : st * res :=
 
 Definition do_init (M : mdesc) (cfg : amap) (f : fault) (n : nat) (d : disk) : st * res :=
   match load_file M d with
-  | LRaise => ({| dk := d; md := None |}, RExc)
   | LOk raw loaded =>
       let m := init_state M cfg raw loaded in
       let '(d', m', o) := save_params M f n d m in
@@ -533,7 +608,6 @@ Definition load_step (M : mdesc) (m : mstate) (kv : nat * val) : mstate :=
 
 Definition do_load (M : mdesc) (f : fault) (n : nat) (d : disk) (m : mstate) : st * res :=
   match load_file M d with
-  | LRaise => ({| dk := d; md := Some (set_pdata m None) |}, RExc)
   | LOk raw loaded =>
       let m1 := fold_left (load_step M) loaded (set_pdata m (Some raw)) in
       let '(d', m', dead) := write_init M f n d m1 in finish d' m' dead
